@@ -56,6 +56,7 @@ MC = [
     ("MC_KeyKeeper", "KeyKeeper_incmatch.cfg", "RestartUsesLocal", None),
     # a look-up that rewrites the host's guid spelling; start-up housekeeping that removes "older" key files
     ("MC_KeyKeeper", "KeyKeeper_spelling.cfg", "RestartUsesLocal", None),
+    ("MC_KeyKeeper", "KeyKeeper_searchempty.cfg", "RestartUsesLocal", None),
     ("MC_KeyKeeper", "KeyKeeper_prune.cfg", ("LatchedIsRecoverable", "RestartUsesLocal"), None),
 ]
 
@@ -74,10 +75,13 @@ JOBS_QUICK = [
     ("fresh-guid-upper", "none"), ("fresh-guid-nohyphen", "attest-lost"),
     # refused keys' files with later modification times than the latched key's file lie in the key directory at a restart
     ("restart-with-key-newer-leftovers", "none"),
+    # a key is in memory when the host drops its latch; the attestation of the next key is committed but its reply is lost
+    ("rotation-while-loaded", "second-attest-lost"), ("rotation-while-loaded-fresh", "second-attest-lost"),
 ]
 THIN = {"fresh-inc-key-only": 3, "restart-with-key-inc-key-only": 2, "fresh-inc-differ": 3, "fresh-guid-upper": 3,
-        "fresh-guid-nohyphen": 3, "restart-with-key-newer-leftovers": 2}     # quick: every n-th kill point
-JOBS_MORE = [("restart-with-key-guid-upper", "none"), ("restart-with-key-older-leftovers", "none"),
+        "fresh-guid-nohyphen": 3, "restart-with-key-newer-leftovers": 2, "rotation-while-loaded": 3, "rotation-while-loaded-fresh": 4}     # quick: every n-th kill point
+JOBS_MORE = [("rotation-while-loaded", "second-attest-ok"), ("rotation-while-loaded", "second-attest-err"),
+             ("restart-with-key-guid-upper", "none"), ("restart-with-key-older-leftovers", "none"),
              ("restart-with-key-newer-leftovers", "status-fail"), ("fresh-guid-upper", "readback-fails"),
              ("fresh-inc-status-only", "none"), ("fresh-inc-equal", "none"), ("restart-with-key-inc-differ", "none"),
              ("fresh-inc-key-only", "readback-fails"),
